@@ -172,6 +172,9 @@ class SeriesV:
         return f"Series({self.line!r}, index={self.index!r})"
 
 
+PART_ROLES = {}        # role of a part of an axis ("T[a:b]") -> (role of the axis it is a part of, the slice)
+
+
 class ILoc:
     def __init__(self, t):
         self.t = t
@@ -185,7 +188,13 @@ class ILoc:
             rows = items[0]
             cols = items[1] if len(items) > 1 else SliceV(None, None, None)
             t = self.t
-            return Table(t.var, t.index if full(rows) else f"{t.index}[{rows!r}]", t.columns if full(cols) else f"{t.columns}[{cols!r}]", dict(t.parsed))
+            ri = t.index if full(rows) else f"{t.index}[{rows!r}]"
+            ci = t.columns if full(cols) else f"{t.columns}[{cols!r}]"
+            if not full(rows):
+                PART_ROLES[ri] = (t.index, rows)
+            if not full(cols):
+                PART_ROLES[ci] = (t.columns, cols)
+            return Table(t.var, ri, ci, dict(t.parsed))
         ln = self.t.values().sym_subscript(ev, idx, n, mod)
         if isinstance(ln, Line1):
             return SeriesV(ln, Axis(ln.along, True), None)
